@@ -26,6 +26,9 @@ ASSUMPTIONS = [
 ]
 
 
+SUMMARY_PAGE_FILES = ('index.html', 'moduleIndex.html', 'classIndex.html', 'nameIndex.html', 'undoccedSummary.html', 'all-documents.html')
+
+
 def classify_link(system: Any, page: str, link: Dict[str, Any], why: str) -> str:
     """Structural signature of a dead link: what kind of target it names."""
     from pydoctor import model
@@ -101,6 +104,12 @@ def check_output(case: Dict[str, Any]) -> Tuple[List[Tuple[str, str]], Dict[str,
                         out.append(('no-page-for-' + sigsuffix, 'page %r of the parent of visible %s does not exist' % (fname, o.fullName())))
                 elif pg.dom is not None and frag not in pg.anchors:
                     out.append(('no-anchor-for-' + sigsuffix, 'visible %s %s has no anchor %r on %s' % (type(o).__name__, o.fullName(), frag, fname)))
+        # input predicate of F46: a module/package/class whose page would be named like one of pydoctor's own summary pages
+        clash = sorted(o.fullName() for o in s.allobjects.values() if o.documentation_location is model.DocLocation.OWN_PAGE and o.isVisible
+                       and (o.fullName() + '.html') in SUMMARY_PAGE_FILES and not (o.fullName() == 'index' and len(s.rootobjects) == 1))
+        if clash:
+            info['summary_page_clash'] = clash
+            out = [('page-named-like-summary-page', '%s [the project has %s, whose page shares its file name with a summary page]' % (msg, clash)) for _sig, msg in out]
     seen = set()
     res = []
     for sig, msg in out:
@@ -173,7 +182,7 @@ def work(item: Dict[str, Any]) -> Acc:
         hyp_run(acc, linkproj.projects(), lambda c: run(c, 'linkproj'), item['n'], item['seed'])
     elif item['kind'] == 'trees':
         from .c01 import st_tree
-        hyp_run(acc, st_tree(clean=True), lambda c: run(c, 'grammar-tree'), item['n'], item['seed'])
+        hyp_run(acc, st_tree(clean=True, reserved=True), lambda c: run(c, 'grammar-tree'), item['n'], item['seed'])
     else:
         c = real_package_cases()[item['index']]
         try:
